@@ -29,15 +29,22 @@ def _regexp(pattern, value):
     return 1 if _re.search(pattern, value) is not None else 0
 
 
+# SQLite enforces foreign keys (and their ON DELETE CASCADE) only on connections that ask for it; a plain connection - what a program
+# gets from create_engine('sqlite://...') - does not.  Storages are made with enforcement on unless this is switched off.
+SQLITE_FOREIGN_KEYS = True
+
+
 def make_engine(url='sqlite://', regexp=False):
     kw = {}
+    fk = SQLITE_FOREIGN_KEYS
     if url == 'sqlite://':
         kw = {'poolclass': StaticPool, 'connect_args': {'check_same_thread': False}}
     engine = create_engine(url, **kw)
 
     @event.listens_for(engine, 'connect')
     def _on_connect(dbapi_con, _rec):
-        dbapi_con.execute('PRAGMA foreign_keys=ON')
+        if fk:
+            dbapi_con.execute('PRAGMA foreign_keys=ON')
         if regexp:
             dbapi_con.create_function('regexp', 2, _regexp)     # X REGEXP Y  ==  regexp(Y, X): (pattern, value)
     return engine
